@@ -58,6 +58,10 @@ def tz_calls(tree: ast.AST):
             out.append((n, ALWAYS[name]))
         elif name in NOW and isinstance(f, ast.Attribute):
             if name == "now" and (n.args or "tz" in kw):
+                tzarg = n.args[0] if n.args else next(k.value for k in n.keywords if k.arg == "tz")
+                # an explicit zone object is fine; `x.tzinfo` of a naive timestamp is None, which falls back to the process-local clock
+                if isinstance(tzarg, ast.Attribute) and tzarg.attr == "tzinfo" or (isinstance(tzarg, ast.Constant) and tzarg.value is None):
+                    out.append((n, "now(tz) with the tzinfo of a (possibly naive) timestamp: tz=None reads the process-local wall clock"))
                 continue
             out.append((n, NOW[name]))
         elif isinstance(f, ast.Attribute) and isinstance(f.value, ast.Name) and f.value.id in ("time", "os", "locale"):
